@@ -136,6 +136,33 @@ func SetMethodT(
 	)] = methodT
 }
 
+// `private :m` after the definition: the method moves under its private key
+func MakeMethodPrivate(frame, targetClass, targetMethod string) {
+	publicKey := methodTFrameKey(frame, targetClass, targetMethod, false)
+
+	methodT, ok := TFrame[publicKey]
+	if !ok {
+		return
+	}
+
+	delete(TFrame, publicKey)
+	TFrame[methodTFrameKey(frame, targetClass, targetMethod, true)] = methodT
+
+	for i := len(TSignatureArticles) - 1; i >= 0; i-- {
+		article := &TSignatureArticles[i]
+
+		if article.Frame == frame &&
+			article.Class == targetClass &&
+			!article.IsStatic &&
+			article.MethodT.GetMethodName() == targetMethod {
+
+			article.IsPrivate = true
+
+			break
+		}
+	}
+}
+
 func getParentMethodT(
 	frame string,
 	class string,
